@@ -231,6 +231,49 @@ def work(chunk):
     return [check_item(it) for it in chunk]
 
 
+def cw_items():
+    """Operands with terms that mix worlds (two counterfactual versions of one variable, or a counterfactual and a
+    factual variable of the same name, side by side): the helpers that split or match variables must do so by the
+    variable object, not by its name.  Decided over one free joint of the counterfactual variables (freedist.py)."""
+    from y0.dsl import A, Distribution, Fraction, P, Probability, Variable, X, Y, Z
+
+    def raw(children, parents=()):
+        return Probability(Distribution(children=tuple(children), parents=tuple(parents)))
+
+    yx, yx1, za = Y @ -X, Y @ +X, Z @ -A
+    joints = [raw((yx, Y, Z)), raw((yx, yx1)), raw((yx, yx1, Z)), raw((Y, yx)), raw((yx, za, Y)), raw((Z, yx1, yx)), raw((yx, za, A))]
+    conds = [raw((yx,), (Y,)), raw((yx, Z), (Y,)), raw((Z,), (yx, Y)), raw((yx, Y), (Z @ -X,)), raw((Y,), (yx, yx1)), raw((yx,), (za, A)), raw((za, A), (yx,))]
+    items = []
+    for j in joints:
+        jj = to_json(j)
+        ch = list(j.children)
+        for k in range(1, len(ch)):
+            for sub in itt.combinations(ch, k):
+                for den in {raw(sub), raw(tuple(reversed(sub)))}:
+                    f = to_json(Fraction(j, den))
+                    items.append({"op": "contract", "a": f})
+                    items.append({"op": "recursive_contract", "a": f})
+                    items.append({"op": "fraction_simplify", "a": f})
+    plain = [raw((Y,)), raw((Z,), (Y,)), raw((Y, Z))]
+    for p in joints + conds:
+        pj = to_json(p)
+        items.append({"op": "chain_expand", "a": pj, "ordering": None})
+        for o in itt.permutations(list(p.children) + list(p.parents)):
+            items.append({"op": "chain_expand", "a": pj, "ordering": [var_to_json(v) for v in o]})
+        items.append({"op": "fraction_expand", "a": pj})
+        names = [v.name for v in itt.chain(p.children, p.parents)]
+        if len(set(names)) == len(names):
+            # operations that introduce a Sum: only when no name occurs twice (a Sum ranges over a *name*, so it cannot
+            # marginalise Y_x and leave Y alone - a representation limit of the DSL, outside the claim)
+            items.append({"op": "bayes_expand", "a": pj})
+            for r in (["Y"], ["Z"], ["Y", "Z"]):
+                items.append({"op": "marginalize", "a": pj, "r": r})
+        for q in joints[:3] + conds[:2] + plain:
+            items.append({"op": "mul", "a": pj, "b": to_json(q)})
+            items.append({"op": "div", "a": pj, "b": to_json(q)})
+    return items
+
+
 def build_items(t):
     from y0.dsl import Fraction, Probability, Sum
 
@@ -290,6 +333,7 @@ def build_items(t):
                         items.append({"op": "chain_expand", "a": pj, "ordering": [var_to_json(v) for v in o]})
         items.append({"op": "fraction_expand", "a": pj})
         items.append({"op": "bayes_expand", "a": pj})
+    items += cw_items()
     return items
 
 
@@ -304,6 +348,7 @@ def run() -> int:
     ]
     rep.bounds = {
         "operands": "52 representative operands (27 leaves incl. value-marked, interventional, population-tagged, One, Zero; products, sums, nested sums, fractions incl. nested and constant ones, Q-factors): all ordered pairs for * and /; all range sets over A,B,C (+X) for marginalize/conditional; every depth-2 fraction/sum of the C10 family for simplify; for contract (quick: every 3rd); every probability leaf with every ordering of its variables, and with every ordering that covers the children and only some (or none) of the parents, for chain_expand",
+        "cross_world_operands": "7 joints and 7 conditionals that mix worlds (Y_x next to Y, Y_x next to Y_x', with a third variable): contract / recursive_contract / Fraction.simplify of joint over every sub-joint, chain/fraction/Bayes expansion with every ordering, marginalisation and Bayes expansion only where no name occurs twice (a Sum ranges over a name), * and / among them; decided over one free positive joint of the counterfactual variables (distinct counterfactual variables = distinct random variables, no structural axioms)",
         "distributions": "free positive joints per (population, intervention assignment), binary variables; Q-factors as uninterpreted positive functions; all value assignments",
         "PYTHONHASHSEED": hashseed(),
     }
